@@ -353,6 +353,31 @@ def r6_loop_wiring(ctx):
             else:
                 ctx.ok("C03.R6", loc(f2, node), "the loop over assign(...) always runs the generator to exhaustion")
     ctx.floor("C03.R6.assign_loops", n_loops, 1)
+    # ... and nobody between the generator and that loop truncates it: an adaptor that stops pulling (islice, takewhile, zip with a shorter
+    # partner, a bare next()) leaves the generator suspended at its last yield, with that assignment's bookkeeping undone
+    TRUNC = {"islice", "takewhile", "next", "zip"}
+    gens = {f2.qual for f2 in repo.all_funcs() if f2.module.name.startswith("cascade.scheduler") and getattr(f2, "is_generator", False)}
+    gens.add("cascade.scheduler.api.assign")
+    n_g = 0
+    for f2 in repo.all_funcs():
+        if not f2.module.name.startswith(("cascade.scheduler", "cascade.controller")) or isinstance(f2.node, _ast.Lambda):
+            continue
+        genvars = set()
+        for node in walk_scope(f2.node):
+            if isinstance(node, _ast.Assign) and isinstance(node.value, _ast.Call) and (repo.resolve_expr(f2.module, node.value.func) or "") in gens:
+                genvars |= {t.id for t in node.targets if isinstance(t, _ast.Name)}
+        for node in walk_scope(f2.node):
+            if isinstance(node, _ast.Call) and _ast.unparse(node.func).rsplit(".", 1)[-1] in TRUNC:
+                for a in node.args:
+                    is_gen = (isinstance(a, _ast.Name) and a.id in genvars) or (isinstance(a, _ast.Call) and (repo.resolve_expr(f2.module, a.func) or "") in gens)
+                    if is_gen:
+                        n_g += 1
+                        ctx.violation("C03.R6", f2.qual, loc(f2, node), "assignment generator not truncated",
+                                      f"{f2.qual} wraps the assignment generator in {_ast.unparse(node.func)}(...): when the adaptor stops pulling, the generator stays suspended "
+                                      f"at its last yield and never pops that assignment's task from `computable` nor its worker from the idle set — the assignment was "
+                                      f"already sent, so the next round dispatches the same task again, to a worker that is busy")
+    if not n_g:
+        ctx.ok("C03.R6", loc(fi), f"no truncating adaptor around the {len(gens)} assignment generators")
 
 
 def _own_loop_body(loop):
